@@ -149,7 +149,7 @@ def _c16_harnesses():
                 kind="bounded", bound="at most 3 physical items, tied key fields", covers=0, timeout=1200, mod="sorted_deque"))
         hs.append(Harness(
             "c16_%s_cleanup_front_contract" % kind, ["C16"], "SortedDeque::cleanup_front",
-            "[%s] the contract ASSUMED by the Verus unit sorted_deque: from any inner-deque-valid state (erased flags arbitrary) "
+            "[%s] the contract the Verus unit sorted_deque now proves (rule N15), here as a second, bounded engine: from any inner-deque-valid state (erased flags arbitrary) "
             "cleanup_front drops exactly the leading run of erased items and changes nothing else" % label, kind="bounded",
             bound="at most {NCF} physical items, consumed prefix 0 or 1, erased flags symbolic", covers=2, timeout=1200,
             mod="sorted_deque"))
@@ -233,7 +233,7 @@ HCOBS_KANI = KaniUnit(
                 "RADIX == 253, STUFF_SEQUENCE == [FE, FD], PROD_PARAMS == (252, 253*253-1 = 64008) in the real build",
                 kind="proof", timeout=600),
         Harness("c07_find_stuff_sequence_bounded", ["C07", "C01", "C02"], "find_stuff_sequence",
-                "Some(i) => FE FD at i and at no earlier index; None => at no index (the contract assumed by the Verus unit)",
+                "Some(i) => FE FD at i and at no earlier index; None => at no index (the contract proved in the Verus units since rule N16; this harness is the second engine)",
                 kind="bounded", bound="every slice of length <= {L}", covers=3, timeout=1500),
     ],
 )
@@ -355,7 +355,7 @@ NATIVE_UNITS = {
     "hcobs": NativeUnit("hcobs", "hcobs",
         [("hcobs/src/lib.rs", os.path.join(KN, "hcobs_find_stuff.rs"))],
         [NativeTest("verif_native_find_stuff_sequence_positions", ["C01", "C02", "C07", "C08"], "find_stuff_sequence",
-                    "the contract ASSUMED for find_stuff_sequence by the Verus units (Some(i) <=> i is the first index with FE FD), "
+                    "the contract the Verus units now PROVE for find_stuff_sequence (Some(i) <=> i is the first index with FE FD), here as a second, bounded engine with concrete inputs, "
                     "beyond the lengths the Kani harness c07_find_stuff_sequence_bounded can afford",
                     "every length 0..={NL} x 6 backgrounds x (no pair / FE FD at every position / lone FE / lone FD at every position / "
                     "a second pair 2..=17, 31..33, 63..65 bytes later)"),
